@@ -450,6 +450,15 @@ func checkHeaderStanzas(p *Program, r *Result, enc *ssa.Function) {
 	var in []fieldStore
 	for _, fs := range stores {
 		if fs.Fn == enc {
+			// an empty slice stored up front (pre-sizing: make([]*Stanza, 0, n)) lists nothing
+			if ls, lc, known := etb.lenSym(fs.Store.Val); known && ls == "0" && lc == 0 {
+				continue
+			}
+			if ms, isMake := stripConv(fs.Store.Val).(*ssa.MakeSlice); isMake {
+				if k, isK := constInt(ms.Len); isK && k == 0 {
+					continue
+				}
+			}
 			in = append(in, fs)
 		}
 	}
